@@ -328,22 +328,45 @@ pub fn c15(cx: &RunCtx) {
                 refmodel::vocab::Arity::Fixed(_) => inputs.extend(pair_list.iter().flat_map(|x| pair_list.iter().map(move |y| format!("{}({},{})", name, x, y)))),
                 _ => inputs.extend(pair_list.iter().flat_map(|x| pair_list.iter().map(move |y| format!("{}({},{})", name, x, y)))),
             }
-            for s in inputs {
-                let lx = refmodel::lex::lex(refmodel::vocab::Ev::F64, &s);
-                let parsed = refmodel::parse::parse_lexed(refmodel::vocab::Ev::F64, &lx);
-                let base = run::<F64>(&s, &7.0);
-                st.nodes += 1;
-                st.transitions += 1;
-                st.executions += 1;
-                let ctx = Ctx::<F64> {
-                    s: &s,
-                    depth: 1,
-                    lx: &lx,
-                    parsed: &parsed,
-                    base: &base,
-                    engine: "E-FUNC pair (f64, number)",
-                };
-                c15_f64_extra(&ctx, &mut st, &cx.rec);
+            // whole operands 1..=20000 (an Integer fast path may differ from the double computation in the last
+            // bit for a sparse set of arguments only: sqrt against powf(0.5) first at 2921)
+            match f.arity() {
+                refmodel::vocab::Arity::Fixed(1) => inputs.extend((1..=20000).map(|x| format!("{}({})", name, x))),
+                refmodel::vocab::Arity::Fixed(_) => {
+                    for c in ["2", "3", "0.5", "10"] {
+                        inputs.extend((1..=20000).map(|x| format!("{}({},{})", name, c, x)));
+                        inputs.extend((1..=20000).map(|x| format!("{}({},{})", name, x, c)));
+                    }
+                }
+                _ => {}
+            }
+            use rayon::prelude::*;
+            let parts: Vec<Stats> = inputs
+                .par_chunks(2048)
+                .map(|chunk| {
+                    let mut st = Stats::default();
+                    for s in chunk {
+                        let lx = refmodel::lex::lex(refmodel::vocab::Ev::F64, s);
+                        let parsed = refmodel::parse::parse_lexed(refmodel::vocab::Ev::F64, &lx);
+                        let base = run::<F64>(s, &7.0);
+                        st.nodes += 1;
+                        st.transitions += 1;
+                        st.executions += 1;
+                        let ctx = Ctx::<F64> {
+                            s,
+                            depth: 1,
+                            lx: &lx,
+                            parsed: &parsed,
+                            base: &base,
+                            engine: "E-FUNC pair (f64, number)",
+                        };
+                        c15_f64_extra(&ctx, &mut st, &cx.rec);
+                    }
+                    st
+                })
+                .collect();
+            for p in &parts {
+                st.merge(p);
             }
         }
         cx.add_run(&st, json!({"engine": "E-FUNC pair (f64, number) every function name", "stats": st.to_json()}));
